@@ -118,3 +118,76 @@ Example C01_nontrivial_run :
              TComp 2 (mkOS 8 0) [TStruct [1;0;0;0;0;0;0;0] []; TStruct [2;0;0;0;0;0;0;0] []]]) 938;
    VNum (Ok 938)].
 Proof. do 4 eexists. vm_compute. reflexivity. Qed.
+
+(* ================================================================== recursive consumers *)
+(* C01 also covers the recursive consumers on ARBITRARY bytes: equality, canonicalisation, deep
+   copy into another message (models Value/EqualM.v, Value/CanonM.v, Core/Builder.v).  Lemmas in
+   Value/EqualSafe.v, Value/CanonSafe.v, Core/CopySafe.v.  Additional standing assumptions: the
+   destination of a copy satisfies the builder invariant and has segments of at most
+   maxSegmentSize bytes ([dok]); copied pointers have a reader-made shape ([shape_ok]: every
+   pointer handed out by readPtr has it, C01_reader_ptr_shape; a struct taken from an element
+   of a 1/2/4-byte list does NOT, and writePtr panics on it: C01_copy_unaligned_refuted). *)
+From CV Require Import Value.EqualM Value.EqualSafe Value.CanonM Value.CanonSafe Core.Builder Core.CopySafe.
+
+(* capnp.Equal on one or two hostile messages: any fuel, any limits, any two well-formed
+   pointers: never a panic (and the budgets only go down, see C02) *)
+Theorem C01_equal_m_safe : forall c fx x, ectx_ok x -> cfg_strict c = true ->
+  forall fuel w p q, wf_ptr (segs_of x SA) p -> wf_ptr (segs_of x SB) q -> lims_nonneg w ->
+  egood w (equal_m fuel c fx x w p q).
+Proof. exact equal_m_good. Qed.
+Print Assumptions C01_equal_m_safe.
+
+(* capnp.Canonicalize on a hostile source struct (repaired configuration) *)
+Theorem C01_canon_m_safe : forall c fx fuel src rl s,
+  cfg_strict c = true -> cx_complist fx = true -> msg_ok src -> wf_struct src s -> 0 <= rl ->
+  fst (canonicalize c fx fuel src rl s) <> KPanic /\ 0 <= snd (canonicalize c fx fuel src rl s) <= rl.
+Proof. exact canonicalize_safe. Qed.
+Print Assumptions C01_canon_m_safe.
+
+(* the three mutually recursive functions of canonical.go, from any state: no panic, the
+   destination stays well-formed and only grows, the source is untouched *)
+Theorem C01_canon_all : forall c fx, cfg_strict c = true -> cx_complist fx = true ->
+  forall f, P_fill c fx f /\ P_ptr c fx f /\ P_list c fx f.
+Proof. exact canon_all. Qed.
+Print Assumptions C01_canon_all.
+
+(* deep copy out of a hostile message: Segment.writePtr (SetPtr / PointerList.Set / SetRoot
+   across messages) and copyStruct (List.SetStruct / CopyFrom) *)
+Theorem C01_write_ptr_safe : forall f w dsid off src fc,
+  dok (w_dst w) -> msg_ok (w_src w) -> 0 <= w_src_rl w -> region_ok (w_dst w) dsid off 8 ->
+  wf_ptr (w_src w) src -> shape_ok src ->
+  rpost w (write_ptr f true w dsid off InSrc src fc).
+Proof. exact write_ptr_safe. Qed.
+Print Assumptions C01_write_ptr_safe.
+
+Theorem C01_copy_struct_safe : forall f w dst src,
+  dok (w_dst w) -> msg_ok (w_src w) -> 0 <= w_src_rl w -> dst_ok (w_dst w) dst ->
+  wf_struct (w_src w) src ->
+  rpost w (copy_struct f true w dst InSrc src).
+Proof. exact copy_struct_safe. Qed.
+Print Assumptions C01_copy_struct_safe.
+
+Theorem C01_reader_ptr_shape : forall strict m rl sid s paddr depth q,
+  fst (readPtr strict m rl sid s paddr depth) = Ok q -> shape_ok q.
+Proof. exact reader_ptr_shape. Qed.
+Print Assumptions C01_reader_ptr_shape.
+
+(* sensitivity / findings: the unrestricted copy statement is false on the code as it is
+   (repo 38ec570), and the as-found canonicalList panics (F04) *)
+Example C01_copy_unaligned_refuted :
+  let c := mkCfg 0 0 true true in
+  msg_ok unaligned_msg /\
+  exists r l e m0,
+    fst (root c unaligned_msg 1000) = Ok r /\
+    fst (struct_ptr c unaligned_msg 1000 r 0) = Ok l /\
+    list_struct true l 0 = Ok e /\ wf_ptr unaligned_msg e /\ p_size e = mkOS 1 0 /\
+    new_message ASingle [] 0 = Ok m0 /\ dok m0 /\
+    set_root 8 (mkW m0 unaligned_msg 1000) InSrc e = Panic.
+Proof. exact copy_unaligned_refuted. Qed.
+
+Example C01_canon_complist_refuted :
+  let c := mkCfg 0 0 true true in
+  msg_ok complist_msg /\
+  run_canon 10 c (mkCFix false true true (mkFix true true true)) complist_msg SelRoot = KPanic /\
+  exists bs, run_canon 10 c (mkCFix true true true (mkFix true true true)) complist_msg SelRoot = KOk bs.
+Proof. exact canon_complist_refuted. Qed.
